@@ -177,9 +177,12 @@ func drawOpAt(t *rapid.T, m *machine, all []nodeInfo, n nodeInfo, forceKind stri
 		op.Keys = rapid.SliceOfN(rapid.SampledFrom(keyPool), 0, 4).Draw(t, "keys")
 		if kind == "mapfromraw" {
 			op.By = rapid.SliceOfN(rapid.Byte(), 0, 3).Draw(t, "bytes")
+		} else {
+			op.Bo = rapid.Bool().Draw(t, "rewrite_kept")
+			op.I = rapid.Int64Range(-3, 40).Draw(t, "i")
 		}
 	case "vset":
-		op.Name = rapid.SampledFrom([]string{"SetStr", "SetInt", "SetDouble", "SetBool", "SetEmptyBytes", "SetEmptyMap", "SetEmptySlice", "FromRawNil", "FromRawList", "FromRawBytes"}).Draw(t, "vset")
+		op.Name = rapid.SampledFrom([]string{"SetStr", "SetInt", "SetDouble", "SetBool", "SetEmptyBytes", "SetEmptyMap", "SetEmptySlice", "FromRawNil", "FromRawList", "FromRawBytes", "BytesAppend", "BytesAppend"}).Draw(t, "vset")
 		drawScalarFields(t, &op)
 		op.Ints = rapid.SliceOfN(rapid.Int64Range(0, 9), 0, 3).Draw(t, "ints")
 	case "pappend", "pfromraw":
